@@ -146,6 +146,7 @@ def describe_holes(holes, stdin=()):
             if isinstance(h, SymStr): out[k] = zstr(m.eval(h.term, model_completion=True))
             elif z3.is_fp(h): out[k] = f64_bits(m.eval(h, model_completion=True))
             elif is_sym(h): out[k] = str(m.eval(h, model_completion=True))
+            elif isinstance(h, float): out[k] = f64bits(h)          # a concrete number hole: described like a symbolic one (bit pattern)
             else: out[k] = h
         out['stdin'] = [[zstr(m.eval(t, model_completion=True)), term] for t, term in stdin]
         return out
